@@ -3,6 +3,34 @@
 import json, sys
 BASE = "cd /repo && cargo nextest run --workspace --no-fail-fast --test-threads 8 --offline || cargo test --workspace --no-fail-fast --offline"
 CHECKS = {
+ "C05": dict(cat="model_checking", eng="mdv-lat", ref="DESIGN.md §3 C05",
+   tech="deviation-bounded exhaustive enumeration (LAT) of ucontext/fpstate fields on the real fill_cpu_context vs. an independent field table",
+   text="All tuples with <=1 (thorough <=2) deviations from an all-distinct base over 127 input dimensions x 6 boundary values are pushed through the real CrashContext::fill_cpu_context / get_instruction_pointer / get_stack_pointer and every CONTEXT_AMD64 field the statement names is compared with a field table restated from the two format definitions.",
+   note="x86-64 only. Values outside the 6-letter boundary alphabet are not covered. End-to-end part (exception record vs. thread list) is added when the puppet-based driver is wired in."),
+ "C09": dict(cat="model_checking", eng="mdv-seq", ref="DESIGN.md §3 C09",
+   tech="explicit-state exploration of DirSection operation histories x initial states x single destination faults vs. a byte-vector file model",
+   text="Every history of <=6 (thorough 7) grow/flush/entry operations on the real DirSection, from 30 initial states (slots x start offset x pre-content), plus one injected destination error at every call and short writes for histories <=4 (5), is executed against a recording destination and compared with a Vec<u8> file model after every operation.",
+   note="Destination model: in-memory cursor semantics (seek past end zero-fills). Histories stop at the first failed call (a failed DirSection is abandoned by the writer)."),
+ "C10": dict(cat="model_checking", eng="mdv-seq", ref="DESIGN.md §3 C10",
+   tech="exhaustive crash-point enumeration: every prefix of the destination op log of every DirSection history, replayed with a written-bytes bitmap",
+   text="For every DirSection history (<=5/6 ops after the initial flush, 30 initial states) every prefix of the recorded destination op log is replayed into a file image plus written-bytes bitmap and checked: header+directory present, every non-empty slot names only completely written bytes equal to the final image.",
+   note="A completed write is assumed durable and ordered (no torn writes below the call granularity). Whole-dump crash points are added with the puppet-based driver."),
+ "C12": dict(cat="model_checking", eng="mdv-lat", ref="DESIGN.md §3 C12",
+   tech="exhaustive enumeration of mapping layouts x ordered word sequences x stack-pointer offsets x lengths on the real sanitize_stack_copy vs. a classifier restated from the statement",
+   text="Layouts (subsets of <=3 (thorough 5) of 8 candidate mappings around 2 MiB bucket and 4 GiB pre-filter-wrap boundaries x executable flags x 3 stack variants) x all singles and ordered pairs over a ~50-word per-layout boundary alphabet, triples over a 12-word core, 8 stack-pointer offsets, plus every (offset 0..24, length 0..48): each call of the real function is judged by the statement's laws.",
+   note="A real PtraceDumper on an idle child with its public `mappings` field overwritten. 64-bit only; words outside the alphabet not covered."),
+ "C13": dict(cat="model_checking", eng="mdv-seq", ref="DESIGN.md §3 C13",
+   tech="exhaustive enumeration of memory-map texts up to a line bound x vDSO address through the real parser+aggregate, judged by statement invariants only",
+   text="All maps of <=3 lines over a 56-letter line alphabet, <=4 over 36 letters, <=5 over 16 letters (thorough 4/5/7), each x every vDSO-address choice, rendered as /proc/pid/maps text and pushed through procfs-core + MappingInfo::aggregate; plus the maps of every live process. Oracle: ordering/disjointness, exact hull, contiguity and merge justification, gate naming.",
+   note="Lenient readings (documented in DESIGN.md): reserved-gap line need not be anonymous; empty-page fold does not require the file to be executable."),
+ "C14": dict(cat="model_checking", eng="mdv-lat", ref="DESIGN.md §3 C14",
+   tech="structure-aware exhaustive mutation (every field x boundary values, truncations, byte flips) of generated ELF images + all installed ELF files vs. an independent ELF reader",
+   text="23 base images (64/32-bit, LE/BE, with/without notes, SONAME, sections, split PT_LOAD) x every header field x 18 boundary values (thorough: all field pairs x 6 values on 3 images), every truncation, every byte x {00,ff}: no panic. Base images and every installed ELF file (quick: /usr/bin + /usr/lib/x86_64-linux-gnu; thorough: /usr /opt /root toolchains): build id and SONAME equal the independent reader's.",
+   note="Agreement only demanded where the independent reader finds the image well-formed and unambiguous. Memory-vs-file comparison is added with the puppet-based driver."),
+ "C20": dict(cat="model_checking", eng="mdv-lat", ref="DESIGN.md §3 C20",
+   tech="exhaustive enumeration of stack-copy length x SP offset x pointer position/alignment x pointer value on the real stack_has_pointer_to_mapping vs. the statement's iff-rule",
+   text="Copy length 0..40 x stack-pointer offset 0..24 x pointer byte offset 0..32 (aligned and unaligned) x 6 values around the mapping bounds, plus no-pointer and decoys-below-SP cases: the real function must answer exactly the iff-rule and never panic.",
+   note="End-to-end part (which stacks are kept in a dump) is added with the puppet-based driver."),
  "C16": dict(cat="model_checking", eng="mdv-seq", ref="DESIGN.md §3 C16",
    tech="explicit-state BFS over operation histories of the real mem_writer API vs. a Vec<u8> reference builder",
    text="Every history of reserve/write/fill-later/array/string operations up to the depth bound (53-letter alphabet depth 4, 20-letter core depth 5 quick / 6 thorough) is executed on the real Buffer and compared byte-for-byte, location-for-location with a Vec<u8> reference model after every transition; every string of <=3 code points over a 10-letter boundary alphabet is round-tripped. Exhaustive inside those bounds.",
